@@ -16,6 +16,7 @@ package main
 import (
 	"fmt"
 	"sort"
+	"strconv"
 	"strings"
 
 	cluster "github.com/envoyproxy/go-control-plane/envoy/config/cluster/v3"
@@ -33,7 +34,7 @@ import (
 	"verifharness/internal/quiet"
 )
 
-func (s *sut) clientE2E(ns string, labels [][2]string, clientNs, kind string) string {
+func (s *sut) clientE2E(ns string, labels [][2]string, clientNs, kind string, port uint32) string {
 	f := &failer{}
 	defer f.done()
 	var cfgs []config.Config
@@ -49,14 +50,14 @@ func (s *sut) clientE2E(ns string, labels [][2]string, clientNs, kind string) st
 	switch kind {
 	case "noistio":
 		// no sidecar on the endpoint: no tlsMode label
-	case "ptdisabled":
+	case "ptdisabled", "drptdisabled":
 		epLabels["security.istio.io/tlsMode"] = "disabled"
 	default:
 		epLabels["security.istio.io/tlsMode"] = "istio"
 	}
 	se := &networkingapi.ServiceEntry{
 		Hosts:      []string{hostname},
-		Ports:      []*networkingapi.ServicePort{{Number: 80, Name: "http", Protocol: "HTTP"}},
+		Ports:      []*networkingapi.ServicePort{{Number: port, Name: "http", Protocol: "HTTP"}},
 		Location:   networkingapi.ServiceEntry_MESH_INTERNAL,
 		Resolution: networkingapi.ServiceEntry_STATIC,
 		Endpoints:  []*networkingapi.WorkloadEntry{{Address: serverIP, Labels: epLabels}},
@@ -72,6 +73,25 @@ func (s *sut) clientE2E(ns string, labels [][2]string, clientNs, kind string) st
 		Meta: config.Meta{GroupVersionKind: gvk.ServiceEntry, Name: "svc", Namespace: ns},
 		Spec: se,
 	})
+	// DestinationRule kinds: a PASSTHROUGH load balancer (the other passthrough branch of
+	// BestEffortInferServiceMTLSMode) or an explicit client TLS mode
+	var tp *networkingapi.TrafficPolicy
+	switch kind {
+	case "drpassthrough", "drptdisabled":
+		tp = &networkingapi.TrafficPolicy{LoadBalancer: &networkingapi.LoadBalancerSettings{
+			LbPolicy: &networkingapi.LoadBalancerSettings_Simple{Simple: networkingapi.LoadBalancerSettings_PASSTHROUGH},
+		}}
+	case "drdisable":
+		tp = &networkingapi.TrafficPolicy{Tls: &networkingapi.ClientTLSSettings{Mode: networkingapi.ClientTLSSettings_DISABLE}}
+	case "dristio":
+		tp = &networkingapi.TrafficPolicy{Tls: &networkingapi.ClientTLSSettings{Mode: networkingapi.ClientTLSSettings_ISTIO_MUTUAL}}
+	}
+	if tp != nil {
+		cfgs = append(cfgs, config.Config{
+			Meta: config.Meta{GroupVersionKind: gvk.DestinationRule, Name: "dr", Namespace: ns},
+			Spec: &networkingapi.DestinationRule{Host: hostname, TrafficPolicy: tp},
+		})
+	}
 	mc := mesh.DefaultMeshConfig()
 	mc.RootNamespace = s.root
 	fs := xdsfake.NewFakeDiscoveryServer(f, xdsfake.FakeOptions{Configs: cfgs, MeshConfig: mc})
@@ -88,7 +108,7 @@ func (s *sut) clientE2E(ns string, labels [][2]string, clientNs, kind string) st
 	push := fs.PushContext()
 
 	// CDS: the client's outbound cluster
-	clusterName := model.BuildSubsetKey(model.TrafficDirectionOutbound, "", host.Name(hostname), 80)
+	clusterName := model.BuildSubsetKey(model.TrafficDirectionOutbound, "", host.Name(hostname), int(port))
 	c := "-"
 	for _, cl := range fs.Clusters(client) {
 		if cl.Name == clusterName {
@@ -116,7 +136,8 @@ func (s *sut) clientE2E(ns string, labels [][2]string, clientNs, kind string) st
 	// the real inference on the real service and the client's real sidecar-scope view
 	be := "no-service"
 	if svc := push.ServiceForHostname(client, host.Name(hostname)); svc != nil {
-		be = modeTok(push.BestEffortInferServiceMTLSMode(client.SidecarScope.AuthnPolicies, nil, svc, svc.Ports[0]))
+		// with the traffic policy of the DestinationRule, as the cluster builder passes it
+		be = modeTok(push.BestEffortInferServiceMTLSMode(client.SidecarScope.AuthnPolicies, tp, svc, svc.Ports[0]))
 	}
 	// LDS: what the server accepts on port 80
 	var chains []string
@@ -125,7 +146,7 @@ func (s *sut) clientE2E(ns string, labels [][2]string, clientNs, kind string) st
 			continue
 		}
 		for _, fc := range l.FilterChains {
-			if fc.GetFilterChainMatch().GetDestinationPort().GetValue() == 80 {
+			if fc.GetFilterChainMatch().GetDestinationPort().GetValue() == port {
 				chains = append(chains, chainToken(fc))
 			}
 		}
@@ -171,7 +192,7 @@ func chainToken(fc *listener.FilterChain) string {
 			http = "1"
 		}
 	}
-	return fmt.Sprintf("%s:%s.%d.%s.%s", dst, tp, alpnClass(m.GetApplicationProtocols()), http, chainSock(fc))
+	return fmt.Sprintf("%s:%s.%s.%s.%s", dst, tp, alpnCode(m.GetApplicationProtocols()), http, chainSock(fc))
 }
 
 var _ = tlsv3.DownstreamTlsContext{}
@@ -179,22 +200,46 @@ var _ = tlsv3.DownstreamTlsContext{}
 // clientE2EOracle: the composed decision against the spec and against what the server accepts.
 func (s *sut) clientE2EOracle(f []string, res string, fail func(clause, class, detail string)) {
 	ns, labels, kind := f[1], parseLabels(f[2]), f[4]
-	if kind != "normal" {
-		return // the statement is about in-mesh services with sidecar endpoints; the other kinds are tied by T-diff only
-	}
-	eff := effectiveMode(s.pas, s.root, ns, labels, 80)
+	p64, _ := strconv.ParseUint(f[5], 10, 32)
+	port := uint32(p64)
+	eff := effectiveMode(s.pas, s.root, ns, labels, port)
 	nsLevel := effectiveMode(s.pas, s.root, ns, nil, 0)
 	c, e := field(res, "C"), field(res, "E")
 	composed := c == "1" && e == "1"
-	// what the server's chains for port 80 do
-	plaintextOK := false
-	for _, ch := range strings.Split(field(res, "S"), ",") {
-		if strings.Contains(ch, ":0.") {
-			plaintextOK = true
+	detail := fmt.Sprintf("kind %s cluster-tls %s endpoint-label %s effective %s namespace-level %s chains %s", kind, c, e, eff, nsLevel, field(res, "S"))
+	switch kind {
+	case "normal":
+		if composed != (eff != "DISABLE") {
+			fail("client-composed", composedClass(composed, e == "1", eff, nsLevel), detail)
 		}
-	}
-	if composed != (eff != "DISABLE") {
-		detail := fmt.Sprintf("cluster-tls %s endpoint-label %s effective %s namespace-level %s server-admits-plaintext %v", c, e, eff, nsLevel, plaintextOK)
-		fail("client-composed", composedClass(composed, e == "1", eff, nsLevel), detail)
+	case "noistio":
+		// an endpoint without sidecar must never be sent mutual TLS
+		if e != "0" {
+			fail("client-composed", "mtls-to-endpoint-without-sidecar", detail)
+		}
+	case "drdisable":
+		// an explicit DestinationRule TLS mode wins over the PeerAuthentication-derived decision
+		if c != "0" || e != "0" {
+			fail("client-composed", "destination-rule-disable-not-honoured", detail)
+		}
+	case "dristio":
+		if c != "1" || e != "1" {
+			fail("client-composed", "destination-rule-istio-mutual-not-honoured", detail)
+		}
+	case "external":
+		// a mesh-external service never gets auto-mTLS
+		if c != "0" {
+			fail("client-composed", "auto-mtls-to-mesh-external-service", detail)
+		}
+	case "ptdisabled", "drptdisabled":
+		// passthrough to an endpoint that says tlsMode=disabled: no TLS on the cluster
+		if c != "0" {
+			fail("client-composed", "passthrough-tls-to-disabled-endpoint", detail)
+		}
+	case "passthrough", "drpassthrough":
+		// passthrough to sidecar endpoints follows the namespace level
+		if (c == "1") != (nsLevel != "DISABLE") {
+			fail("client-composed", "passthrough-ignores-namespace-level", detail)
+		}
 	}
 }
